@@ -617,3 +617,50 @@ Section ReachSound.
     apply andl_true in C. destruct C as [C _]. exact C.
   Qed.
 End ReachSound.
+
+(* ------------------------------------- structured conversion keeps the keys *)
+
+Lemma to_cfg_obj_keys : forall cs t o n kv c,
+  to_cfg cs t o (VObj n kv) = Ok c -> exists kv', c = VDict kv' /\ map fst kv' = map fst kv.
+Proof.
+  intros cs t o n kv c H. simpl in H.
+  destruct (negb _); [discriminate|].
+  destruct (find_class cs n) as [cd|]; [|discriminate].
+  apply bind_ok in H. destruct H as [kv' [G E]]. inversion E; subst. exists kv'. split; [reflexivity|].
+  clear E. revert kv' G. induction kv as [|[k x] r IH]; intros kv' G.
+  - inversion G; subst. reflexivity.
+  - destruct (find_field cd k) as [f|]; [|discriminate].
+    apply bind_ok in G. destruct G as [x' [_ G]].
+    apply bind_ok in G. destruct G as [r' [Gr G]]. inversion G; subst.
+    simpl. f_equal. apply IH. exact Gr.
+Qed.
+
+Lemma complete_all_leaves : forall o d fs kv,
+  map fst kv = map fst fs -> Forall (fun e => exists x, snd e = SLeaf x) fs ->
+  complete (SNode o d fs) (VDict kv) = true.
+Proof.
+  intros o d fs kv K L. rewrite complete_node. revert kv K.
+  induction fs as [|[k s] r IH]; intros [|[k' c] r'] K; simpl in K; try discriminate; [reflexivity|].
+  inversion K; subst. inversion L as [|x l [y Hy] Lr]; subst. simpl in Hy. subst s.
+  simpl. rewrite String.eqb_refl. simpl. apply IH; assumption.
+Qed.
+
+(* --------------------------------------------------------------- small specs *)
+
+Lemma py_in_strs_spec : forall v l, py_in_strs v l = true <-> exists s, v = VStr s /\ In s l.
+Proof.
+  intros v l. destruct v; simpl; try (split; [discriminate | intros [s0 [E _]]; discriminate]).
+  rewrite mem_str_In. split.
+  - intro I. exists s. split; [reflexivity|exact I].
+  - intros [s0 [E I]]. inversion E; subst. exact I.
+Qed.
+
+Lemma all_res_true : forall f l, all_res f l = Ok true <-> Forall (fun x => f x = Ok true) l.
+Proof.
+  induction l as [|x r IH]; simpl.
+  - split; [constructor | reflexivity].
+  - split.
+    + intro H. apply bind_ok in H. destruct H as [b [Fx H]]. destruct b; [|discriminate].
+      constructor; [exact Fx | apply IH; exact H].
+    + intro H. inversion H; subst. rewrite H2. simpl. apply IH. exact H3.
+Qed.
